@@ -79,6 +79,9 @@ def ann_type(node) -> object:
   if isinstance(node, ast.Subscript) and ast.unparse(node.value) in ("Tuple", "tuple", "typing.Tuple"):
     elts = node.slice.elts if isinstance(node.slice, ast.Tuple) else [node.slice]
     return ("tuple", tuple(ann_type(e) for e in elts))
+  if isinstance(node, ast.Subscript) and ast.unparse(node.value) in ("wp.array", "wp.array2d", "wp.array3d", "wp.array4d"):
+    nd = {"wp.array": 1, "wp.array2d": 2, "wp.array3d": 3, "wp.array4d": 4}[ast.unparse(node.value)]
+    return ("arr", ann_type(node.slice), nd)
   if isinstance(node, ast.Call) and ast.unparse(node.func) in ("wp.array", "wp.array2d", "wp.array3d"):
     nd = {"wp.array": 1, "wp.array2d": 2, "wp.array3d": 3}[ast.unparse(node.func)]
     dt = None
@@ -124,9 +127,10 @@ class Env:
 
 
 class FuncTranslator:
-  def __init__(self, mod: "ModuleTranslator", fn: ast.FunctionDef):
+  def __init__(self, mod: "ModuleTranslator", fn: ast.FunctionDef, spec=None):
     self.mod = mod
     self.fn = fn
+    self.spec = spec
     self.name = fn.name
     self.ret_type = None
     self.fresh = 0
@@ -198,6 +202,12 @@ class FuncTranslator:
         return "(Scalar.pi : K)", F
       if s == "wp.inf":
         self.err(node, "wp.inf")
+      if isinstance(node.value, ast.Name) and node.value.id in env.types and node.attr in ("x", "y", "z", "w"):
+        bt = env.types[node.value.id]
+        k = "xyzw".index(node.attr)
+        if bt in VEC and bt != "Q" and k < VEC[bt]:
+          return f"{self.mod.lname(node.value.id)}.c{k}", F
+        self.err(node, f"attribute .{node.attr} of {bt}")
       v = self.py_eval(node, env)
       return self.const_value(node, v, want)
     if isinstance(node, ast.UnaryOp):
@@ -224,7 +234,7 @@ class FuncTranslator:
       if isinstance(node.op, ast.Invert):
         a, t = self.expr(node.operand, env)
         if t == I:
-          return f"(Int.not {a})", I
+          return f"(Mjw.inot {a})", I
       self.err(node, "unary op")
     if isinstance(node, ast.BinOp):
       return self.binop(node, env, want)
@@ -320,15 +330,15 @@ class FuncTranslator:
       if op is ast.Mod:
         return f"(Int.tmod {a} {b})", I
       if op is ast.BitAnd:
-        return f"(Int.land {a} {b})", I
+        return f"(Mjw.iand {a} {b})", I
       if op is ast.BitOr:
-        return f"(Int.lor {a} {b})", I
+        return f"(Mjw.ior {a} {b})", I
       if op is ast.BitXor:
-        return f"(Int.xor {a} {b})", I
+        return f"(Mjw.ixor {a} {b})", I
       if op is ast.LShift:
-        return f"(Int.shiftLeft' {a} {b})", I
+        return f"(Mjw.ishl {a} {b})", I
       if op is ast.RShift:
-        return f"(Int.shiftRight' {a} {b})", I
+        return f"(Mjw.ishr {a} {b})", I
       self.err(node, "int binop")
     if ta == B and tb == B and op in (ast.BitAnd, ast.BitOr):
       return f"({a} {'&&' if op is ast.BitAnd else '||'} {b})", B
@@ -562,6 +572,8 @@ class FuncTranslator:
         return f"({t}.vabs {a})", t
       self.err(node, f"{fn} of {t}")
     sc2 = {"wp.atan2": "atan2", "wp.pow": "pow", "wp.min": "min", "wp.max": "max"}
+    if fn in sc2 and len(args) != 2:
+      self.err(node, f"{fn} with {len(args)} args")
     if fn in sc2:
       a, ta, b, tb = self.coerce_pair(args[0], args[1], env, F if fn in ("wp.atan2", "wp.pow") else None)
       if ta == F and tb == F:
@@ -651,9 +663,12 @@ class FuncTranslator:
     target = self.mod.resolve_func(fn)
     if target is not None:
       tmod, tname = target
-      sig = tmod.signature(tname)
+      spec = None
+      if tmod.is_generic(tname):
+        spec = tuple(self.expr(a, env)[1] for a in args)
+      sig = tmod.signature(tname, spec)
       if sig is None:
-        self.err(node, f"call to untranslated function {fn}")
+        self.err(node, f"call to untranslated function {fn}: {tmod.errors.get(tmod.key(tname, spec), '')[:80]}")
       ptypes, rtype = sig
       if len(args) != len(ptypes):
         self.err(node, f"arity mismatch calling {fn}")
@@ -665,7 +680,7 @@ class FuncTranslator:
         if t != pt:
           self.err(node, f"argument type {t} for parameter type {pt} in call to {fn}")
         parts.append(s)
-      return "(" + tmod.qualified(tname) + " " + " ".join(parts) + ")", rtype
+      return "(" + tmod.qualified(tmod.key(tname, spec)) + " (K := K) " + " ".join(parts) + ")", rtype
     self.err(node, f"call {fn}")
 
   # ---- statements ----------------------------------------------------------------------------
@@ -683,7 +698,7 @@ class FuncTranslator:
 
     def tgt(t):
       if isinstance(t, ast.Name):
-        if t.id not in out:
+        if t.id not in out and t.id != "_":
           out.append(t.id)
       elif isinstance(t, (ast.Tuple, ast.List)):
         for e in t.elts:
@@ -872,6 +887,9 @@ class FuncTranslator:
       for tg, tt in zip(target.elts, t[1]):
         if not isinstance(tg, ast.Name):
           self.err(s, "nested tuple target")
+        if tg.id == "_":
+          names.append("_")
+          continue
         env.types[tg.id] = tt
         env.consts.pop(tg.id, None)
         names.append(self.mod.lname(tg.id))
@@ -902,28 +920,35 @@ class FuncTranslator:
     a = self.fn.args
     if a.vararg or a.kwarg or a.kwonlyargs:
       self.err(self.fn, "varargs")
-    for p in a.args:
+    for i, p in enumerate(a.args):
       if p.annotation is None:
         self.err(self.fn, f"parameter {p.arg} without annotation")
-      out.append((p.arg, ann_type(p.annotation)))
+      if ast.unparse(p.annotation) == "Any":
+        if self.spec is None:
+          self.err(self.fn, "generic function without specialisation")
+        out.append((p.arg, self.spec[i]))
+      else:
+        out.append((p.arg, ann_type(p.annotation)))
     return out
 
   def translate(self) -> Tuple[str, list, object]:
     params = self.param_types()
-    if self.fn.returns is not None and ast.unparse(self.fn.returns) != "None":
+    if self.fn.returns is not None and ast.unparse(self.fn.returns) not in ("None", "Any"):
       self.ret_type = ann_type(self.fn.returns)
     env = Env({n: t for n, t in params}, {})
     body = self.stmts(list(self.fn.body), env)
     if self.ret_type is None:
       self.err(self.fn, "no return type")
     sig = " ".join(f"({self.mod.lname(n)} : {lean_type(t)})" for n, t in params)
-    src = f"def {self.mod.lname(self.name)} {{K : Type}} [Scalar K] {sig} : {lean_type(self.ret_type)} :=\n{textwrap.indent(body, '  ')}\n"
+    src = f"def {self.mod.lname(self.mod.key(self.name, self.spec))} {{K : Type}} [Scalar K] {sig} : {lean_type(self.ret_type)} :=\n{textwrap.indent(body, '  ')}\n"
     return src, [t for _, t in params], self.ret_type
 
 
 _LEAN_KEYWORDS = {"at", "from", "in", "end", "do", "then", "else", "if", "let", "have", "show", "fun", "match", "with", "open", "local", "prefix",
                   "infix", "notation", "section", "namespace", "variable", "def", "theorem", "example", "structure", "class", "instance", "where",
-                  "by", "mut", "for", "return", "Type", "Prop", "Sort", "axis", "abs", "max", "min"}
+                  "by", "mut", "for", "return", "Type", "Prop", "Sort", "axis", "abs", "max", "min", "K", "V2", "V3", "V4", "V5", "V6", "V10", "Q",
+                  "M22", "M33", "Int", "Bool", "Nat", "Scalar", "Mjw", "List", "some", "none", "true", "false", "id", "fun", "this", "using", "extends",
+                  "instance", "deriving", "macro", "syntax", "universe", "mutual", "private", "protected", "partial", "noncomputable", "unsafe"}
 
 
 class ModuleTranslator:
@@ -940,6 +965,7 @@ class ModuleTranslator:
     self.module = importlib.import_module(f"mujoco_warp._src.{pyname}")
     self.globals = dict(vars(self.module))
     self.sigs: Dict[str, Tuple[list, object]] = {}
+    self.pynames: Dict[str, str] = {}
     self.out: Dict[str, str] = {}
     self.errors: Dict[str, str] = {}
     self.in_progress = set()
@@ -987,31 +1013,50 @@ class ModuleTranslator:
   def is_wp_func(fn: ast.FunctionDef) -> bool:
     return any(ast.unparse(d) in ("wp.func", "wp.func_native") for d in fn.decorator_list)
 
-  def signature(self, fname):
-    if fname not in self.sigs and fname not in self.errors:
-      self.translate_func(fname)
-    return self.sigs.get(fname)
+  def is_generic(self, fname):
+    fn = self.funcs.get(fname)
+    return fn is not None and any(p.annotation is not None and ast.unparse(p.annotation) == "Any" for p in fn.args.args)
 
-  def translate_func(self, fname):
-    if fname in self.sigs or fname in self.errors:
+  @staticmethod
+  def key(fname, spec):
+    if spec is None:
+      return fname
+    def tn(t):
+      return t if isinstance(t, str) else "T" + "".join(tn(x) for x in t[1]) if t[0] == "tuple" else "A"
+    return fname + "_" + "_".join(tn(t) for t in spec)
+
+  def signature(self, fname, spec=None):
+    k = self.key(fname, spec)
+    if k not in self.sigs and k not in self.errors:
+      self.translate_func(fname, spec)
+    return self.sigs.get(k)
+
+  def translate_func(self, fname, spec=None):
+    k = self.key(fname, spec)
+    if k in self.sigs or k in self.errors:
       return
-    if fname in self.in_progress:
-      self.errors[fname] = "recursive"
+    if k in self.in_progress:
+      self.errors[k] = "recursive"
       return
-    self.in_progress.add(fname)
+    self.in_progress.add(k)
     try:
       fn = self.funcs.get(fname)
       if fn is None:
         raise Unsupported(f"{self.pyname}.{fname}: no such function")
-      ft = FuncTranslator(self, fn)
+      ft = FuncTranslator(self, fn, spec)
       src, ptypes, rtype = ft.translate()
-      self.sigs[fname] = (ptypes, rtype)
-      self.out[fname] = src
-      self.registry.order.append((self, fname))
+      self.sigs[k] = (ptypes, rtype)
+      self.pynames[k] = fname
+      self.out[k] = src
+      self.registry.order.append((self, k))
     except Unsupported as e:
-      self.errors[fname] = str(e)
+      self.errors[k] = str(e)
+    except RecursionError:
+      self.errors[k] = f"{self.pyname}.{fname}: translator recursion limit"
+    except Exception as e:  # translator bug: report, never crash the run
+      self.errors[k] = f"{self.pyname}.{fname}: translator internal error {type(e).__name__}: {e}"
     finally:
-      self.in_progress.discard(fname)
+      self.in_progress.discard(k)
 
 
 class Registry:
